@@ -445,7 +445,7 @@ PROPERTY_INFO = {
             "text": "Failure frames: for each refusing call (bulk set with a failing element at every position, vetoed by-name setters, wrong type / illegal index, unconvertible text on a set scalar, removing a missing section, duplicate title) the option is compared bit-for-bit with a snapshot (values, count, order, annotation pointer, flags).",
             "note": "Bounded shapes (<= 2/3 values). cfg_setopt on a list / empty / default-holding option appends its slot before converting (DESIGN 7)."},
     "C11": {"level": "other",
-            "text": "parse_title against its reference for every qualifier text up to 5/7 bytes; cfg_getopt / cfg_getsec (cfg_getopt_secidx, cfg_opt_gettsecidx, cfg_getopt_leaf) against step-by-step navigation (spec_resolve) on two- and three-level trees for every path up to 3 (all flag combinations) / 5 bytes, including termination (unwinding assertions) and 'nothing changes'; cfg_getopt_array through its extracted copy with the recursion cut by contract.",
+            "text": "parse_title against its reference for every qualifier text up to 5/7 bytes; cfg_getopt / cfg_getsec (cfg_getopt_secidx, cfg_opt_gettsecidx, cfg_getopt_leaf) against step-by-step navigation (spec_resolve) on two- and three-level trees for every path up to 3 (all flag combinations) / 5 bytes, including termination (unwinding assertions) and 'nothing changes'; cfg_getopt_array through its extracted copy with the recursion cut by contract. cfg_getopt_leaf additionally under a function + loop contract enforced by goto-instrument --dfcc --apply-loop-contracts for option arrays of every length up to 1024 (first entry whose name equals the name asked for, case rule of the context; string equality abstract, z3; SAT twin for counterexamples).",
             "note": "Bounded: longer paths / deeper trees are not seen. Index qualifiers in octal/hex/sign spelling, duplicated separators in the middle and text glued to a closing quote are not judged (statement silent)."},
     "C12": {"level": "other",
             "text": "Unknown-name detection and the skip states 10-15 are checked in the step unit (no store / lookup / callback / diagnostic while skipping; nested activation answers only continue/reject; sections inherit the flag, cfg_init sets it before defaults). Whole undeclared items are checked on 9 concrete token scripts run through the real function: assignment, list and call are skipped as the language defines; append and every section form are recorded findings.",
@@ -469,6 +469,6 @@ PROPERTY_INFO = {
             "text": "Every unit runs with any allocation free to fail (CBMC 6 default) unless stated: failure-side postconditions on cfg_addval, cfg_opt_getval, setters, cfg_opt_setnstr (old string kept), cfg_opt_setcomment, cfg_setopt arms, cfg_dupopt_array (source intact, nothing leaked), cfg_init, cfg_addopt, call_function, parse_title, cfg_parse_fp/buf; the section arm's half-built instance and abort() on an unparsable default are recorded findings.",
             "note": "Any subset of allocations may fail, which contains the single-fault enumeration; bounded shapes; scanner-internal allocations out of scope (as the property says)."},
     "C19": {"level": "other",
-            "text": "cfg_print_pff_indent: every option the effective filter accepts is handed to the option printer exactly once in declaration order, with the effective filter (own, else inherited) and the same depth, nothing else; cfg_opt_print_pff_indent: reference layout for 14 option shapes incl. sections (header, body once per instance one level deeper under the same filter, footer), lists, unset scalars commented out, print callback replacing the value format for exactly that option; the hook setters.",
+            "text": "cfg_print_pff_indent: every option the effective filter accepts is handed to the option printer exactly once in declaration order, with the effective filter (own, else inherited) and the same depth, nothing else; cfg_opt_print_pff_indent: reference layout for 14 option shapes incl. sections (header, body once per instance one level deeper under the same filter, footer), lists, unset scalars commented out, print callback replacing the value format for exactly that option; the hook setters. Unbounded (goto-instrument --dfcc --apply-loop-contracts): cfg_print_pff_indent's loop for option arrays of every length up to 1024 with arbitrary filter verdicts (monitor carriers for the filters and the option printer, z3 + SAT twin), cfg_indent for every depth up to 2^29 (SAT), cfg_print / cfg_print_indent modularly against contract::cfg_print_pff_indent (--replace-call-with-contract).",
             "note": "Bounded(<= 3 options / values); byte-exact layout only as far as spec/print_spec.h fixes it."},
 }
